@@ -65,6 +65,29 @@ fn emit_case(rep: &mut Report, pat: &[u32], flags: &str, want_valid: Option<bool
     }
 }
 
+/// Property expressions assembled from names, values and `=` signs: `\\p{t1=t2=…}` with 0..3 `=`.
+/// Only `Name=Value` and `LoneName` are in the grammar; everything with two or more `=` is a syntax error.
+pub const PROP_TOKENS: &[&str] = &[
+    "gc", "sc", "scx", "General_Category", "Script", "Script_Extensions", "Lu", "L", "Greek", "Latin", "", "Any", "ASCII",
+];
+
+pub fn prop_expr_family(rep: &mut Report, focus: &str, n: usize, rng: &mut Rng) {
+    for _ in 0..n {
+        let k = 1 + rng.below(4);
+        let body: Vec<&str> = (0..k).map(|_| *rng.pick(PROP_TOKENS)).collect();
+        let esc = if rng.chance(1, 4) { "\\P" } else { "\\p" };
+        let core = format!("{}{{{}}}", esc, body.join("="));
+        let pat = match rng.below(4) {
+            0 => format!("[{}]", core),
+            1 => format!("a{}+", core),
+            _ => core,
+        };
+        let cps: Vec<u32> = pat.chars().map(|c| c as u32).collect();
+        let fs = *rng.pick(&["u", "v", "iu", "", "v"]);
+        emit_case(rep, &cps, fs, None, "propexpr", focus);
+    }
+}
+
 fn mode_flags() -> Vec<&'static str> {
     vec!["", "u", "v", "i", "iu", "iv"]
 }
@@ -72,6 +95,7 @@ fn mode_flags() -> Vec<&'static str> {
 /// C08 / C07 stream. `exhaustive_len`: all strings up to that length over CORE_SYNTAX.
 pub fn syntax(rep: &mut Report, focus: &str, n: usize, seed: u64, thorough: bool) {
     let mut rng = Rng::new(seed);
+    prop_expr_family(rep, focus, (n / 40).max(300), &mut rng);
     // (1) exhaustive short strings
     let maxlen = if thorough { 4 } else { 3 };
     let mut cur: Vec<Vec<u32>> = vec![vec![]];
@@ -114,7 +138,7 @@ pub fn syntax(rep: &mut Report, focus: &str, n: usize, seed: u64, thorough: bool
                     // a multi-character fragment: constructs whose validity depends on where they stand
                     const FRAGMENTS: &[&str] = &[
                         "\\u{3e}", "\\u003E", "\\u{+41}", "\\u{110000}", "\\k<a>", "(?<a>", "(?<a\\u{62}>", "(?i-i:", "(?-:", "(?ii:", "\\08", "\\00", "{,1}", "{1,0}",
-                        "{2}", "\\p{Lu}", "\\P{RGI_Emoji}", "\\p{RGI_Emoji}", "[^", "&&", "--", "\\q{", "\\c1", "\\x4", "(?<=", "(?<!", "\\b", "\\B", "\\-",
+                        "{2}", "\\p{Lu}", "\\p{sc=gc=Lu}", "\\p{gc=Lu=Lu}", "\\P{Script=Script_Extensions=Latin}", "\\p{gc=Lu}", "\\p{=Lu}", "\\p{Lu=}", "\\P{RGI_Emoji}", "\\p{RGI_Emoji}", "[^", "&&", "--", "\\q{", "\\c1", "\\x4", "(?<=", "(?<!", "\\b", "\\B", "\\-",
                         "\\uD83D", "\\uDE00", "\\1", "\\9", "(?:", "?", "*?", "]", "}", "[]", "[^]", "\\d-a", "a-\\d",
                     ];
                     let frag: Vec<u32> = rng.pick(FRAGMENTS).chars().map(|c| c as u32).collect();
